@@ -48,6 +48,14 @@ add('C28', 'model_checking',
     'RunModes.tla invariant Released (every process registered by compile is released exactly once in every scheduler branch) checked by TLC; FID register/deregister event logs recorded under the real table mutex while programs run concurrently are validated by TLC against FidTrace.tla (FidUnique, QuietEmpty)',
     'TLC proves the release accounting of the three schedulers for all blocks <=4 commands; the real interpreter then runs thousands of those blocks plus structured programs (failing casts, break/continue/return, nested functions, aborted try) 8 at a time per process under schedule perturbation; each process logs FID events in mutex order and TLC checks on the log that no FID is handed out twice and that nothing rooted in a finished program is still registered.',
     'quiet = program returned + up to 2 s for asynchronous deregistration; programs are attributed through parent links logged at registration', 'DESIGN §6 C28')
+add('C33', 'exploration',
+    'TLA+ spec Redirect.tla: routing rule (stdout/stderr tokens x position x context) and file-sink rule evaluated and sanity-asserted by TLC, exported as a case table; each row executed by the real interpreter with three payloads and compared per sink',
+    'The complete finite table of redirection combinations (36 routing rows, 16 file rows) is enumerated; what arrives on block stdout, block stderr, the next command\'s stdin and in the file must equal the TLC table for every row and payload. Exploration level: the specification is a pure function, TLC checks its conservation assertion and enumerates it.',
+    'writer is a murex function; multiset comparison per sink', 'DESIGN §6 C33')
+add('C21', 'exploration',
+    'TLA+ spec External.tla composed with the chain rules of RunModes.tla: expected exit number and whether the command after && / || / inside try runs, for each exit code and signal; each row executed with a real child process through the real interpreter',
+    'Exit codes (15 spread values; thorough 0-255) and signals 1-15 of a helper process x {alone, && marker, || marker, try{...; marker}}: exit number and marker execution must equal the TLC table. The helper\'s real wait status is verified independently before a row is judged.',
+    'rows whose helper does not die the intended way on this kernel are discarded', 'DESIGN §6 C21')
 
 
 def main():
